@@ -104,6 +104,14 @@ PROPS = {
         trusted=COMMON_TRUST + ["verif hook http/export_verif.go (VerifMux)", "an injected tracker.Tracker implementation supplies tracker URL and error text"],
         assumptions=[],
     ),
+    "C14": dict(
+        level_text="Model/Webseed.v models fileChunks, Pieces.AddData's block arithmetic, the writer (Write, ReadFrom, Close) and GetRight.Get's response validation. Theorems: for every contiguous file table and in-range request the file chunks tile the range exactly, each inside its file (c14_filechunks_partition); a Write stores only inside the reserved range and keeps offset+remaining constant (c14_writer_in_range, c14_adddata_bounded); an accepted response is copied up to the chunk length only (c14_response_limited). Tie: 400 (quick) cases: fileChunks queries on generated layouts (padding, empty, sub-block files), scripted Write/ReadFrom/Close sequences on a real writer with arbitrary split sizes (events and stored blocks compared), and webseedGR fetches against a scripted loopback HTTP server (200/206/416/500, honest/shifted/malformed Content-Range, with/without Content-Length, short/exact/over-long bodies) with monitors: every stored byte is the right byte of the right file, nothing outside the range, every reserved block released.",
+        level_note="ReadFrom and the release accounting are covered by correspondence and monitors, not yet by theorems; net/http client behaviour and Sscanf-based Content-Range parsing are not modelled (the harness passes the structured header it sent); Hoffman-style seeds are not exercised.",
+        harness="webseed", args=["-prop", "C14"], check_module="WebseedCheck",
+        n_quick=400, n_thorough=8000,
+        trusted=COMMON_TRUST + ["verif hooks tor/export_verif.go (VerifFileChunks, VerifWebseedGR), tor/piece/export_verif.go (VerifData)", "loopback HTTP server of the harness"],
+        assumptions=[],
+    ),
 }
 
 # properties not claimed, each with a reason (kept current as checks are added)
